@@ -895,6 +895,10 @@ fn inject(doc: &mut Vec<Node>, g: &mut Gen, which: u64) -> Option<Label> {
             }
             let kind = *g.rng.pick(&OBJ_KINDS);
             let op = ensure(doc, g, kind)?;
+            // an empty contour is dropped by the reader, its entry then belongs to no object
+            if kind == "contour" && node_mut(doc, &op).kids().map_or(true, |k| k.is_empty()) {
+                return None;
+            }
             let id = g.fresh_id();
             set_attr(node_mut(doc, &op), "identifier", &id, g.rng);
             let p = ensure(doc, g, "lib")?;
@@ -1211,6 +1215,48 @@ fn node_ref<'a>(doc: &'a [Node], path: &[usize]) -> &'a Node {
     n
 }
 
+fn node_of_json(v: &serde_json::Value) -> Node {
+    let arr = v.as_array().expect("node");
+    let tag = arr[0].as_str().unwrap_or("");
+    let st = |i: usize| arr.get(i).and_then(|x| x.as_str()).unwrap_or("").to_string();
+    let attrs = |i: usize| -> Vec<(String, String)> {
+        arr.get(i)
+            .and_then(|x| x.as_array())
+            .map(|l| l.iter().map(|kv| (kv[0].as_str().unwrap_or("").to_string(), kv[1].as_str().unwrap_or("").to_string())).collect())
+            .unwrap_or_default()
+    };
+    match tag {
+        "E" => Node::Empty(st(1), attrs(2)),
+        "S" => Node::Elem(st(1), attrs(2), arr.get(3).and_then(|x| x.as_array()).map(|l| l.iter().map(node_of_json).collect()).unwrap_or_default()),
+        "T" => Node::Text(st(1)),
+        "CD" => Node::CData(st(1)),
+        "C" => Node::Comment(st(1)),
+        "DT" => Node::DocType(st(1)),
+        _ => Node::Decl,
+    }
+}
+
+fn emit(out: &mut String, id: i64, ver: u32, label: &Label, doc: &[Node], xml: &str, corpus: &str) {
+    let (tm, short, _) = parse_outcome(xml.as_bytes());
+    let tbl = pf_table(doc);
+    let _ = std::fmt::Write::write_fmt(
+        out,
+        format_args!(
+            "{{\"id\":{},\"ver\":{},\"inj\":{},\"legal\":{},\"class\":{},\"impl\":{},\"case\":{},\"exp\":{},\"xml\":{},\"corpus\":{}}}\n",
+            id,
+            ver,
+            json_str(&label.inj),
+            label.legal,
+            json_str(label.class),
+            json_str(&short),
+            json_str(&Xt::L(vec![xt_doc(doc), xt_pf_table(&tbl)]).packed()),
+            json_str(&tm.packed()),
+            json_str(xml),
+            json_str(corpus)
+        ),
+    );
+}
+
 pub fn main(a: &Args) {
     if std::env::var("VERIF_DEBUG").is_ok() {
         let _ = std::panic::take_hook();
@@ -1221,11 +1267,40 @@ pub fn main(a: &Args) {
         let xml = v["xml"].as_str().unwrap_or("");
         let (tm, short, _) = parse_outcome(xml.as_bytes());
         println!("{}", short);
-        println!("{}", tm.to_string());
+        println!("{}", tm.to_tm().to_string());
         return;
     }
-    let n = if a.thorough() { 300_000 } else { 8_000 };
     let mut rng = Rng::new(a.seed);
+    // committed witnesses first: --corpus DIR
+    if let Some(i) = a.extra.iter().position(|x| x == "--corpus") {
+        let dir = std::path::PathBuf::from(&a.extra[i + 1]);
+        let mut names: Vec<_> = std::fs::read_dir(&dir).map(|d| d.filter_map(|e| e.ok()).map(|e| e.path()).collect()).unwrap_or_default();
+        names.sort();
+        let mut out = String::new();
+        let mut k = 0i64;
+        for p in names {
+            if p.extension().and_then(|x| x.to_str()) != Some("json") {
+                continue;
+            }
+            let v: serde_json::Value = serde_json::from_str(&std::fs::read_to_string(&p).expect("corpus file")).expect("corpus json");
+            let doc: Vec<Node> = v["doc"].as_array().expect("doc").iter().map(node_of_json).collect();
+            let class: &'static str = match v["class"].as_str().unwrap_or("") {
+                "F14" => "F14",
+                "F16" => "F16",
+                "F17" => "F17",
+                _ => "",
+            };
+            let label = Label { inj: v["inj"].as_str().unwrap_or("").to_string(), legal: v["legal"].as_bool().unwrap_or(false), class };
+            let ver = 0;
+            for vary in [false, true] {
+                k -= 1;
+                let xml = render(&doc, &mut rng, vary);
+                emit(&mut out, k, ver, &label, &doc, &xml, p.file_name().and_then(|x| x.to_str()).unwrap_or(""));
+            }
+        }
+        write_file(&a.out.join("cases_corpus.jsonl"), &out);
+    }
+    let n = if a.thorough() { 300_000 } else { 16_000 };
     let mut out = String::new();
     let mut i = 0u64;
     let mut file_no = 0;
@@ -1243,24 +1318,7 @@ pub fn main(a: &Args) {
         };
         let vary = i % 5 != 0;
         let xml = render(&doc, g.rng, vary);
-        let (tm, short, _) = parse_outcome(xml.as_bytes());
-        let tbl = pf_table(&doc);
-        let _ = std::fmt::Write::write_fmt(
-            &mut out,
-            format_args!(
-                "{{\"id\":{},\"ver\":{},\"inj\":{},\"legal\":{},\"class\":{},\"impl\":{},\"doc\":{},\"pf\":{},\"exp\":{},\"xml\":{}}}\n",
-                i,
-                ver,
-                json_str(&label.inj),
-                label.legal,
-                json_str(label.class),
-                json_str(&short),
-                json_str(&g_doc(&doc)),
-                json_str(&g_pf_table(&tbl)),
-                json_str(&tm.to_string()),
-                json_str(&xml)
-            ),
-        );
+        emit(&mut out, i as i64, ver, &label, &doc, &xml, "");
         i += 1;
         in_file += 1;
         if in_file == per_file {
